@@ -1,5 +1,6 @@
 import Holpy.C05.IntervalModel
 import Holpy.C05.ProofsInterval
+import Holpy.C05.ProofsIntervalInst
 /-
 C05 — property theorem about the combination logic of `real_interval_eval`.
 -/
@@ -197,6 +198,12 @@ theorem interval_eval_sound_given_enclosures (P : Prims) (F : RealFns K) (hP : P
       rw [if_pos hn]
       exact ivEval_number P F hP _ I h
     · cases h
+
+/- an instance: exact rational interval arithmetic over ℚ (`idPrims_ok : PrimsOK idPrims idFns`);
+`sqrt 2 + 1` with the identity standing for `sqrt` is enclosed by the point interval [3, 3] -/
+example : encl (K := Rat) (3, 3)
+    (tval idFns (.plus .real (.fn .sqrt (.ofNat .real (.bit0 (.one .nat)))) (.one .real))) :=
+  interval_eval_sound_given_enclosures idPrims idFns idPrims_ok _ _ (by decide +kernel) (by decide) (by decide)
 
 /- the model refuses `atn` (it is not among the supported functions) … -/
 example (P : Prims) : ivEval P (.fn .atn (.one .real)) = .error .conv := rfl
